@@ -262,7 +262,7 @@ def enumerate_cases(rep, stride, n_fresh):
 def run_shard(rep):
     import json
     cfg = META['tiers'][rep.tier]
-    rep.require('kills_delivered', 300)
+    rep.require('kills_delivered', 200)
     cases = enumerate_cases(rep, cfg['stride'], cfg['fresh_interpreters'])
     if rep.shard == 0:
         rep.count('kill_points_enumerated', len(cases))
